@@ -17,6 +17,8 @@ DIRECTED = [
     [S("p3"), R, A, S("p3"), A, ARR],               # extended while blocked: no timeout at the old instant
     [S("p1"), R, A, S("p1"), R, A, R],              # re-armed after expiry, expires again
     [S("past"), R, S("p3"), R, A, A, R],            # past, then future
+    [S("p1"), A, S("far"), R, A, ARR, R, A, S("far2"), A, ARR],   # deadlines centuries ahead never expire
+    [S("far2"), R, A, A, S("p1"), A],               # ... and can be replaced by a near one
 ]
 
 
